@@ -26,3 +26,11 @@ pub use stream::{
     StreamSubscription,
 };
 pub use sync_metrics::{SessionPhase, SyncError};
+
+/// Verification hook: re-exports of module-private items for the conformance harness.
+#[cfg(p2panda_p2panda_verif)]
+pub mod verif_api {
+    pub use super::acked::{Acked, Logs};
+    pub use super::ephemeral_stream::verif_ephemeral_stream;
+    pub use super::sync_metrics::Aggregator;
+}
